@@ -6,9 +6,16 @@
 //!   * how the request's Via is formed: the transport's own sent-by, or `TargetTransportInfo::via_host_port`
 //!     (other address, host name, IPv6 reference, own host with another / without port, mixed-case name);
 //!   * how a response reaches the endpoint: top Via echoed verbatim or with `;received=` appended (RFC 3261
-//!     18.2.1), packet source = the request's destination or another address. A response belongs to the
-//!     transaction by top-Via branch + CSeq method (RFC 3261 17.1.3) in all of these shapes, so the oracle is the
-//!     same for all of them: "a response has arrived".
+//!     18.2.1), packet source = the request's destination or another address, received with the transport handle
+//!     the request was sent with or with the handle of a second transport of the same kind. A response belongs to
+//!     the transaction by top-Via branch + CSeq method (RFC 3261 17.1.3) in all of these shapes, so the oracle is
+//!     the same for all of them: "a response has arrived";
+//!   * bursts: one response of the history may be preceded, in the same instant, by 1..129 further responses
+//!     (100 | 180 | copies of itself) that are all handed to the endpoint before any task of the stack runs (one
+//!     read of a stream transport holding many messages, a socket drained in a loop; in the pacing sub-checks
+//!     additionally: the application is not inside `receive()` at all). The oracle runs over the history with the
+//!     bursts written out: every response of a burst counts like one that arrived alone (handed out in order,
+//!     the final one behind a burst of provisional ones is not lost, duplicates of a final are absorbed).
 //! Oracle (reference schedule `refmodel::ref_tsx`): transmission instants / exactly-once on reliable transports,
 //! byte-identical retransmissions to the same destination, the sequence and instants of `receive()` results
 //! (responses, timeout at 64*T1, INVITE completion), T4 absorber of the non-INVITE transaction (transaction-table
@@ -42,13 +49,70 @@ pub struct Resp {
     /// or NATed peer); responses are matched by top-Via branch + CSeq method only (RFC 3261 17.1.3)
     #[serde(default)]
     pub other_source: bool,
+    /// the response is handed to the endpoint with another transport handle than the one the request was sent
+    /// with (a second socket / another connection of the same peer: `ReceivedMessage.tp_info.transport` differs);
+    /// it belongs to the transaction all the same (branch + CSeq method)
+    #[serde(default)]
+    pub other_transport: bool,
+    /// this response is the last one of a burst: `burst` further responses with status `burst_code` are handed
+    /// to the endpoint immediately before it, in the same instant and before any task of the stack gets to run
+    /// (one read of a stream transport that holds many messages, a socket drained in a loop, a busy executor).
+    /// 0 = the response arrives alone.
+    #[serde(default)]
+    pub burst: u16,
+    #[serde(default)]
+    pub burst_code: u16,
 }
 
 impl Resp {
     pub fn plain(t_ms: u64, code: u16) -> Self {
-        Resp { t_ms, code, received: false, other_source: false }
+        Resp { t_ms, code, received: false, other_source: false, other_transport: false, burst: 0, burst_code: 0 }
     }
 }
+
+/// one response as it reaches the endpoint (`Resp` with its burst written out); the marker of the i-th entry of
+/// the flattened history is `m<i>`
+#[derive(Clone, Debug)]
+pub struct Flat {
+    pub t_ms: u64,
+    pub code: u16,
+    pub received: bool,
+    pub other_source: bool,
+    pub other_transport: bool,
+    /// handed to the endpoint right behind the previous entry: no task ran in between
+    pub glued: bool,
+}
+
+pub fn flatten(responses: &[Resp]) -> Vec<Flat> {
+    let mut out = vec![];
+    for r in responses {
+        for k in 0..r.burst {
+            out.push(Flat {
+                t_ms: r.t_ms,
+                code: r.burst_code,
+                received: r.received,
+                other_source: r.other_source,
+                other_transport: r.other_transport,
+                glued: k > 0,
+            });
+        }
+        out.push(Flat {
+            t_ms: r.t_ms,
+            code: r.code,
+            received: r.received,
+            other_source: r.other_source,
+            other_transport: r.other_transport,
+            glued: r.burst > 0,
+        });
+    }
+    out
+}
+
+/// burst lengths: small ones and the neighbourhood of the usual queue / batch sizes
+pub const BURSTS: &[u16] = &[1, 2, 3, 7, 8, 9, 15, 16, 17, 31, 32, 33, 40, 63, 64, 65, 100, 127, 128, 129];
+
+/// where a response flagged `other_transport` is received: a second transport of the same kind
+pub const OTHER_TRANSPORT_BOUND: &str = "10.0.0.1:5062";
 
 #[derive(Serialize, Deserialize, Clone, Debug, Hash)]
 pub struct Case {
@@ -109,6 +173,19 @@ pub struct Delivery {
     /// (transient fault, e.g. ECONNREFUSED after an ICMP port-unreachable); if handling the response makes no
     /// send call the fault is withdrawn again, it never hits a later, unrelated send
     pub fail_send: bool,
+    /// the endpoint gets the response with the handle of a second transport (same kind, other local address)
+    pub other_transport: bool,
+    /// delivered right behind the previous response (which must have the same arrival instant): no task runs
+    /// in between. Do not combine with `fail_send` on this or the previous response.
+    pub glued: bool,
+}
+
+/// how the application drives the transaction object (poll-driven API): when it calls `receive()` for the first
+/// time and how long it is busy after every response before it calls `receive()` again. Default = at once.
+#[derive(Clone, Debug, Default)]
+pub struct Pace {
+    pub first_poll: u64,
+    pub thinks: Vec<u64>,
 }
 
 const CODES: &[u16] = &[100, 180, 183, 200, 202, 302, 404, 486, 503, 603];
@@ -140,6 +217,32 @@ const TAIL_OFFSETS: &[u64] = &[
     0, 1, 499, 500, 501, T4 - 1, T4 + 1, 20_000, TIMEOUT - 1, TIMEOUT + 1, 2 * TIMEOUT,
 ];
 
+/// (which response gets the burst, burst length, status of the burst members: 100 | 180 | the response's own)
+type BurstSel = Option<(u16, u16, u8)>;
+
+fn burst_sel(one_in: u32) -> BoxedStrategy<BurstSel> {
+    prop_oneof![
+        one_in - 1 => Just(None),
+        1 => (any::<u16>(), any::<u16>(), prop_oneof![2 => Just(0u8), 2 => Just(1u8), 1 => Just(2u8)]).prop_map(Some),
+    ]
+    .boxed()
+}
+
+fn apply_burst(responses: &mut [Resp], sel: BurstSel) {
+    if let Some((which, len, kind)) = sel {
+        if responses.is_empty() {
+            return;
+        }
+        let r = &mut responses[pick_idx(which, responses.len())];
+        r.burst = BURSTS[pick_idx(len, BURSTS.len())];
+        r.burst_code = match kind {
+            0 => 100,
+            1 => 180,
+            _ => r.code,
+        };
+    }
+}
+
 pub fn strategy() -> BoxedStrategy<Case> {
     (
         any::<bool>(),
@@ -149,17 +252,19 @@ pub fn strategy() -> BoxedStrategy<Case> {
                 (any::<u16>(), any::<u16>(), 0u64..40_000, any::<bool>()),
                 prop_oneof![3 => Just(false), 1 => Just(true)],
                 prop_oneof![4 => Just(false), 1 => Just(true)],
+                prop_oneof![5 => Just(false), 1 => Just(true)],
             ),
             0..5,
         ),
         any::<u8>(),
         prop_oneof![3 => Just(None), 2 => prop::sample::select(VIA_OVERRIDES.to_vec()).prop_map(|s| Some(s.to_string()))],
+        burst_sel(6),
     )
-        .prop_map(|(invite, reliable, raw, rng, via_host_port)| {
+        .prop_map(|(invite, reliable, raw, rng, via_host_port, burst)| {
             let grid = first_time_grid(invite);
             let mut responses = vec![];
             let mut t = 0u64;
-            for (i, ((tsel, csel, rnd, use_rnd), received, other_source)) in raw.into_iter().enumerate() {
+            for (i, ((tsel, csel, rnd, use_rnd), received, other_source, other_transport)) in raw.into_iter().enumerate() {
                 if i == 0 {
                     t = if use_rnd { rnd } else { grid[pick_idx(tsel, grid.len())] };
                 } else {
@@ -175,8 +280,12 @@ pub fn strategy() -> BoxedStrategy<Case> {
                     code: CODES[pick_idx(csel, CODES.len())],
                     received,
                     other_source,
+                    other_transport,
+                    burst: 0,
+                    burst_code: 0,
                 });
             }
+            apply_burst(&mut responses, burst);
             Case {
                 invite,
                 reliable,
@@ -206,7 +315,7 @@ pub fn grid_cases(tier: Tier) -> Vec<Case> {
                 for t in first_time_grid(invite) {
                     for &code in &[100u16, 180, 200, 404] {
                         // with an overridden sent-by a real peer adds received= (the host differs from the source)
-                        let first = Resp { t_ms: t, code, received: via.is_some(), other_source: false };
+                        let first = Resp { received: via.is_some(), ..Resp::plain(t, code) };
                         out.push(Case {
                             invite,
                             reliable,
@@ -227,6 +336,20 @@ pub fn grid_cases(tier: Tier) -> Vec<Case> {
                                 }
                             }
                         }
+                    }
+                }
+            }
+            // bursts: N provisional responses and then `code`, all handed to the endpoint in one go
+            for &burst in BURSTS {
+                for &burst_code in &[100u16, 180] {
+                    for &code in &[180u16, 200, 404] {
+                        out.push(Case {
+                            invite,
+                            reliable,
+                            responses: vec![Resp { burst, burst_code, ..Resp::plain(250, code) }],
+                            rng: 3,
+                            via_host_port: None,
+                        });
                     }
                 }
             }
@@ -268,8 +391,7 @@ pub fn run_client(
     run_client_ex(invite, reliable, request, responses, vec![], probes, horizon, rng, via_host_port)
 }
 
-/// `run_client` plus a per-response delivery description (`delivery[i]` belongs to `responses[i]`; missing
-/// entries = default delivery: from the request's destination, no transport fault).
+/// `run_client` plus a per-response delivery description, the application polls at once.
 pub fn run_client_ex(
     invite: bool,
     reliable: bool,
@@ -281,9 +403,29 @@ pub fn run_client_ex(
     rng: u64,
     via_host_port: Option<sip_types::host::HostPort>,
 ) -> Observed {
+    run_client_paced(invite, reliable, request, responses, delivery, Pace::default(), probes, horizon, rng, via_host_port)
+}
+
+/// `run_client` plus a per-response delivery description (`delivery[i]` belongs to `responses[i]`; missing
+/// entries = default delivery: from the request's destination, on the request's transport, alone, no transport
+/// fault) and the pace at which the application calls `receive()`.
+pub fn run_client_paced(
+    invite: bool,
+    reliable: bool,
+    request: Request,
+    responses: Vec<(u64, Box<dyn Fn(&WireMsg) -> Vec<u8> + Send>)>,
+    delivery: Vec<Delivery>,
+    pace: Pace,
+    probes: Vec<u64>,
+    horizon: u64,
+    rng: u64,
+    via_host_port: Option<sip_types::host::HostPort>,
+) -> Observed {
     run_world(rng, |clock| async move {
         let log = WireLog::new(clock);
         let (tp, _id) = mock_datagram(&log, "UDP", false, reliable, "10.0.0.1:5060");
+        // a second transport of the same kind: responses flagged `other_transport` are received on it
+        let (tp2, _id2) = mock_datagram(&log, "UDP", false, reliable, OTHER_TRANSPORT_BOUND);
         let endpoint = offline_builder().build();
         let peer: SocketAddr = "192.0.2.1:5060".parse().unwrap();
         let mut target = TargetTransportInfo {
@@ -305,13 +447,22 @@ pub fn run_client_ex(
             match endpoint.send_invite(request, &mut target).await {
                 Ok(mut tsx) => {
                     let results = results.clone();
+                    let pace = pace.clone();
                     tokio::spawn(async move {
+                        clock.until(pace.first_poll).await;
+                        let mut thinks = pace.thinks.into_iter();
                         loop {
                             match tsx.receive().await {
-                                Ok(Some(r)) => results.lock().push((
-                                    clock.now_ms(),
-                                    Res::Resp(r.line.code.into_u16(), marker_of(&r)),
-                                )),
+                                Ok(Some(r)) => {
+                                    results.lock().push((
+                                        clock.now_ms(),
+                                        Res::Resp(r.line.code.into_u16(), marker_of(&r)),
+                                    ));
+                                    let th = thinks.next().unwrap_or(0);
+                                    if th > 0 {
+                                        clock.advance(th).await;
+                                    }
+                                }
                                 Ok(None) => {
                                     results.lock().push((clock.now_ms(), Res::Finished));
                                     break;
@@ -330,7 +481,10 @@ pub fn run_client_ex(
             match endpoint.send_request(request, &mut target).await {
                 Ok(mut tsx) => {
                     let results = results.clone();
+                    let pace = pace.clone();
                     tokio::spawn(async move {
+                        clock.until(pace.first_poll).await;
+                        let mut thinks = pace.thinks.into_iter();
                         loop {
                             match tsx.receive().await {
                                 Ok(r) => {
@@ -340,6 +494,10 @@ pub fn run_client_ex(
                                         .push((clock.now_ms(), Res::Resp(code, marker_of(&r))));
                                     if code >= 200 {
                                         break;
+                                    }
+                                    let th = thinks.next().unwrap_or(0);
+                                    if th > 0 {
+                                        clock.advance(th).await;
                                     }
                                 }
                                 Err(e) => {
@@ -365,11 +523,18 @@ pub fn run_client_ex(
             events.push((*t, i, Ev::Resp(i)));
         }
         for (i, t) in probes.iter().enumerate() {
-            events.push((*t, 1000 + i, Ev::Probe));
+            events.push((*t, 1_000_000 + i, Ev::Probe));
         }
         events.sort_by_key(|e| (e.0, e.1));
         let mut counts = vec![];
-        for (t, _, ev) in events {
+        // is the response event behind position `k` glued to the one at `k` (same instant, flagged `glued`)
+        let glued_next: Vec<bool> = (0..events.len())
+            .map(|k| match (&events[k], events.get(k + 1)) {
+                ((t, _, Ev::Resp(_)), Some((t2, _, Ev::Resp(j)))) => t == t2 && delivery.get(*j).map_or(false, |d| d.glued),
+                _ => false,
+            })
+            .collect();
+        for (k, (t, _, ev)) in events.into_iter().enumerate() {
             clock.until(t).await;
             match ev {
                 Ev::Resp(i) => {
@@ -384,7 +549,12 @@ pub fn run_client_ex(
                     };
                     if let Some(req) = &first_request {
                         let bytes = (responses[i].1)(req);
-                        inject(&endpoint, &tp, how.source.unwrap_or(peer), &bytes);
+                        let via = if how.other_transport { &tp2 } else { &tp };
+                        inject(&endpoint, via, how.source.unwrap_or(peer), &bytes);
+                    }
+                    if glued_next[k] {
+                        // burst: the next response reaches the endpoint before any task runs
+                        continue;
                     }
                     settle().await;
                     if let Some(n) = planned {
@@ -429,6 +599,20 @@ fn is_final(code: u16) -> bool {
     code >= 200
 }
 
+/// results for notes / messages: long lists (bursts) are abbreviated in the middle
+pub fn brief(results: &[(u64, Res)]) -> String {
+    if results.len() <= 12 {
+        format!("{results:?}")
+    } else {
+        format!(
+            "{:?} ..{} more.. {:?}",
+            &results[..6],
+            results.len() - 10,
+            &results[results.len() - 4..]
+        )
+    }
+}
+
 /// what an RFC 3261 18.2.1 server does to the top Via before echoing it: append `;received=<packet source>`
 pub fn add_received(response: Vec<u8>) -> Vec<u8> {
     let text = String::from_utf8(response).expect("ascii");
@@ -449,8 +633,9 @@ pub fn add_received(response: Vec<u8>) -> Vec<u8> {
 pub fn check(case: &Case, out: &mut CaseOut) {
     let invite = case.invite;
     let sched = ref_tsx::client_send_schedule(invite);
-    let horizon = case
-        .responses
+    // the response history as it reaches the endpoint (bursts written out); markers m<i> follow this list
+    let flat = flatten(&case.responses);
+    let horizon = flat
         .last()
         .map(|r| r.t_ms)
         .unwrap_or(0)
@@ -466,7 +651,7 @@ pub fn check(case: &Case, out: &mut CaseOut) {
         optional: bool,
     }
     let mut expected: Vec<Exp> = vec![];
-    let r0 = case.responses.first().map(|r| r.t_ms).filter(|t| *t < TIMEOUT);
+    let r0 = flat.first().map(|r| r.t_ms).filter(|t| *t < TIMEOUT);
     let mut final_at: Option<u64> = None;
     let mut first_2xx: Option<u64> = None;
     let mut saw_provisional_only = false;
@@ -478,7 +663,7 @@ pub fn check(case: &Case, out: &mut CaseOut) {
         });
     } else {
         let mut done = false;
-        for (i, r) in case.responses.iter().enumerate() {
+        for (i, r) in flat.iter().enumerate() {
             let marker = format!("m{i}");
             if done {
                 break;
@@ -551,8 +736,7 @@ pub fn check(case: &Case, out: &mut CaseOut) {
         }
     }
 
-    let responses: Vec<(u64, Box<dyn Fn(&WireMsg) -> Vec<u8> + Send>)> = case
-        .responses
+    let responses: Vec<(u64, Box<dyn Fn(&WireMsg) -> Vec<u8> + Send>)> = flat
         .iter()
         .enumerate()
         .map(|(i, r)| {
@@ -574,12 +758,13 @@ pub fn check(case: &Case, out: &mut CaseOut) {
             (r.t_ms, f)
         })
         .collect();
-    let delivery: Vec<Delivery> = case
-        .responses
+    let delivery: Vec<Delivery> = flat
         .iter()
         .map(|r| Delivery {
             source: if r.other_source { Some(OTHER_SOURCE.parse().unwrap()) } else { None },
             fail_send: false,
+            other_transport: r.other_transport,
+            glued: r.glued,
         })
         .collect();
 
@@ -598,10 +783,10 @@ pub fn check(case: &Case, out: &mut CaseOut) {
     // ---- classes / non-triviality ----
     out.class(if invite { "invite" } else { "non-invite" });
     out.class(if case.reliable { "reliable" } else { "unreliable" });
-    let near_edge = case.responses.iter().any(|r| {
+    let near_edge = flat.iter().any(|r| {
         sched.iter().any(|s| r.t_ms.abs_diff(*s) <= 1) || r.t_ms.abs_diff(TIMEOUT) <= 1
     });
-    let dup_final = case.responses.iter().filter(|r| is_final(r.code)).count() >= 2;
+    let dup_final = flat.iter().filter(|r| is_final(r.code)).count() >= 2;
     if near_edge {
         out.class("response-within-1ms-of-timer-edge");
     }
@@ -633,13 +818,31 @@ pub fn check(case: &Case, out: &mut CaseOut) {
     if case.responses.iter().any(|r| r.other_source) {
         out.class("response from another source address than the request's destination");
     }
-    if obs.sends.len() > 1 || near_edge || dup_final {
+    if case.responses.iter().any(|r| r.other_transport) {
+        out.class("response received on another transport handle than the request was sent with");
+    }
+    let mut bursty = false;
+    for r in case.responses.iter().filter(|r| r.burst > 0) {
+        bursty = true;
+        out.class(match r.burst {
+            0..=31 => "burst of 2..32 responses handed to the endpoint in one go",
+            32..=127 => "burst of 33..128 responses handed to the endpoint in one go",
+            _ => "burst of more than 128 responses handed to the endpoint in one go",
+        });
+        if r.burst_code < 200 && is_final(r.code) {
+            out.class("final response at the end of a burst of provisional ones");
+        }
+        if is_final(r.burst_code) {
+            out.class("burst of identical final responses");
+        }
+    }
+    if obs.sends.len() > 1 || near_edge || dup_final || bursty {
         out.nontrivial(case);
     }
     out.note = Some(format!(
-        "sends@{:?} results={:?} tsx_counts={:?}",
+        "sends@{:?} results={} tsx_counts={:?}",
         obs.sends.iter().map(|s| s.t_ms).collect::<Vec<_>>(),
-        obs.results,
+        brief(&obs.results),
         obs.counts
     ));
 
@@ -665,7 +868,7 @@ pub fn check(case: &Case, out: &mut CaseOut) {
         }
         let after: Vec<u64> = send_times.iter().copied().filter(|t| *t > stop).collect();
         if !after.is_empty() {
-            let first_is_prov = case.responses.first().map_or(false, |r| r.code < 200);
+            let first_is_prov = flat.first().map_or(false, |r| r.code < 200);
             if r0.is_none() {
                 out.fail(
                     format!("c05.schedule/{kind}-send-after-timeout"),
@@ -766,7 +969,7 @@ pub fn check(case: &Case, out: &mut CaseOut) {
         };
         out.fail(
             format!("c05.results/{kind}-{locus}"),
-            format!("{b}; all results: {:?}", obs.results),
+            format!("{b}; all results: {}", brief(&obs.results)),
         );
     }
 
@@ -827,7 +1030,8 @@ pub fn check(case: &Case, out: &mut CaseOut) {
 // after 64*T1 have passed (then no retransmission was ever due from the caller's side, but whatever arrived in
 // time is queued and still has to come out), (c) how long it thinks after every result before it calls
 // `receive()` again; plus the Via / delivery shapes of the main sub-check. Responses arrive on the wire clock regardless (also while a send is pending and
-// while the application is busy). What is asserted is what the statement fixes independently of pacing:
+// while the application is busy; a burst of up to 130 of them in one go, see the file header). What is asserted is
+// what the statement fixes independently of pacing:
 //   * the first transmission happens at once; a retransmission is never sent sooner after the previous
 //     transmission than the RFC interval for its ordinal (T1, 2*T1, 4*T1 ... / capped at T2 for non-INVITE):
 //     pacing may delay retransmissions, it must not compress them into bursts;
@@ -878,13 +1082,15 @@ fn pacing_strategy() -> BoxedStrategy<PCase> {
                 (any::<u16>(), any::<u16>(), 0u64..40_000, any::<bool>()),
                 prop_oneof![4 => Just(false), 1 => Just(true)],
                 prop_oneof![5 => Just(false), 1 => Just(true)],
+                prop_oneof![6 => Just(false), 1 => Just(true)],
             ),
             0..5,
         ),
         any::<u8>(),
         prop_oneof![3 => Just(None), 1 => prop::sample::select(VIA_OVERRIDES.to_vec()).prop_map(|s| Some(s.to_string()))],
+        burst_sel(6),
     )
-        .prop_map(|(invite, reliable, dsel, (psel, prnd, puse), tsel, raw, rng, via_host_port)| {
+        .prop_map(|(invite, reliable, dsel, (psel, prnd, puse), tsel, raw, rng, via_host_port, burst)| {
             let send_delay = SEND_DELAYS[pick_idx(dsel, SEND_DELAYS.len())];
             let mut first_poll = if puse { prnd } else { FIRST_POLLS[pick_idx(psel, FIRST_POLLS.len())] };
             // the deadline counts from the end of the first send: a first receive() exactly on it is a tie
@@ -897,7 +1103,7 @@ fn pacing_strategy() -> BoxedStrategy<PCase> {
             grid.sort();
             let mut responses = vec![];
             let mut t = 0u64;
-            for (i, ((tsel, csel, rnd, use_rnd), received, other_source)) in raw.into_iter().enumerate() {
+            for (i, ((tsel, csel, rnd, use_rnd), received, other_source, other_transport)) in raw.into_iter().enumerate() {
                 if i == 0 {
                     t = if use_rnd { rnd } else { grid[pick_idx(tsel, grid.len())] };
                 } else {
@@ -909,8 +1115,9 @@ fn pacing_strategy() -> BoxedStrategy<PCase> {
                 if t + 2 >= TIMEOUT && t <= TIMEOUT + 2 * send_delay + 2 {
                     t = TIMEOUT + 2 * send_delay + 3;
                 }
-                responses.push(Resp { t_ms: t, code: CODES[pick_idx(csel, CODES.len())], received, other_source });
+                responses.push(Resp { t_ms: t, code: CODES[pick_idx(csel, CODES.len())], received, other_source, other_transport, burst: 0, burst_code: 0 });
             }
+            apply_burst(&mut responses, burst);
             PCase { invite, reliable, send_delay, first_poll, thinks, responses, rng, via_host_port }
         })
         .boxed()
@@ -964,6 +1171,8 @@ fn run_paced(case: &PCase) -> Paced {
     run_world(case.rng as u64, |clock| async move {
         let log = WireLog::new(clock);
         let (tp, _id) = mock_datagram_slow(&log, "UDP", false, case.reliable, "10.0.0.1:5060", case.send_delay);
+        let (tp2, _id2) = mock_datagram_slow(&log, "UDP", false, case.reliable, OTHER_TRANSPORT_BOUND, case.send_delay);
+        let flat = flatten(&case.responses);
         let endpoint = offline_builder().build();
         let peer: SocketAddr = "192.0.2.1:5060".parse().unwrap();
         let results: Arc<Mutex<Vec<(u64, Res)>>> = Default::default();
@@ -1054,7 +1263,7 @@ fn run_paced(case: &PCase) -> Paced {
         }
         settle().await;
         let first_request = log.snapshot().first().and_then(|s| WireMsg::parse(&s.bytes));
-        for (i, r) in case.responses.iter().enumerate() {
+        for (i, r) in flat.iter().enumerate() {
             clock.until(r.t_ms).await;
             if let Some(req) = &first_request {
                 let mut bytes = response_text(
@@ -1067,7 +1276,11 @@ fn run_paced(case: &PCase) -> Paced {
                     bytes = add_received(bytes);
                 }
                 let source = if r.other_source { OTHER_SOURCE.parse().unwrap() } else { peer };
-                inject(&endpoint, &tp, source, &bytes);
+                inject(&endpoint, if r.other_transport { &tp2 } else { &tp }, source, &bytes);
+            }
+            if flat.get(i + 1).map_or(false, |next| next.glued) {
+                // burst: the next response reaches the endpoint before any task runs
+                continue;
             }
             settle().await;
         }
@@ -1090,11 +1303,13 @@ fn run_paced(case: &PCase) -> Paced {
 
 fn pacing_check(case: &PCase, out: &mut CaseOut) {
     let obs = run_paced(case);
+    // the response history as it reaches the endpoint (bursts written out); markers m<i> follow this list
+    let flat = flatten(&case.responses);
     let invite = case.invite;
     let kind = if invite { "invite" } else { "non-invite" };
     let slack = 2 * case.send_delay + 2;
     let send_times: Vec<u64> = obs.sends.iter().map(|s| s.t_ms).collect();
-    out.note = Some(format!("sends@{send_times:?} send_done={:?} results={:?}", obs.send_done, obs.results));
+    out.note = Some(format!("sends@{send_times:?} send_done={:?} results={}", obs.send_done, brief(&obs.results)));
     out.class(kind);
     if case.send_delay > 0 {
         out.class("send stays pending");
@@ -1102,7 +1317,7 @@ fn pacing_check(case: &PCase, out: &mut CaseOut) {
     if case.first_poll > 0 {
         out.class("first receive() delayed");
     }
-    let r0 = case.responses.first().map(|r| r.t_ms);
+    let r0 = flat.first().map(|r| r.t_ms);
     if r0.map_or(false, |t| t < case.send_delay) {
         out.class("response arrives while the first send is still pending");
     }
@@ -1122,6 +1337,26 @@ fn pacing_check(case: &PCase, out: &mut CaseOut) {
     }
     if case.responses.iter().any(|r| r.received || r.other_source) {
         out.class("response with received= in the top Via / from another source address");
+    }
+    if case.responses.iter().any(|r| r.other_transport) {
+        out.class("response received on another transport handle than the request was sent with");
+    }
+    for r in case.responses.iter().filter(|r| r.burst > 0) {
+        out.class(match r.burst {
+            0..=31 => "burst of 2..32 responses handed to the endpoint in one go",
+            32..=127 => "burst of 33..128 responses handed to the endpoint in one go",
+            _ => "burst of more than 128 responses handed to the endpoint in one go",
+        });
+        if r.burst_code < 200 && r.code >= 200 {
+            out.class("final response at the end of a burst of provisional ones");
+        }
+    }
+    {
+        // how many responses pile up unread before the caller's first receive()
+        let piled = flat.iter().filter(|r| r.t_ms < case.first_poll).count();
+        if piled > 32 {
+            out.class("more than 32 responses arrived before the first receive()");
+        }
     }
     if r0.map_or(true, |t| t > case.first_poll + T1) && case.first_poll > T1 && !case.reliable {
         out.class("retransmission deadlines passed before the first receive()");
@@ -1151,7 +1386,7 @@ fn pacing_check(case: &PCase, out: &mut CaseOut) {
                 interval = interval.min(ref_tsx::T2);
             }
         }
-        let stop = match case.responses.first() {
+        let stop = match flat.first() {
             Some(r) if invite || r.code >= 200 => Some(r.t_ms),
             _ => None,
         };
@@ -1181,7 +1416,7 @@ fn pacing_check(case: &PCase, out: &mut CaseOut) {
         May,
         Never,
     }
-    let n = case.responses.len();
+    let n = flat.len();
     let mut need = vec![Need::Never; n];
     let mut end: Option<&'static str> = None; // how the transaction must end, if asserted
     let mut first_2xx: Option<usize> = None;
@@ -1194,9 +1429,9 @@ fn pacing_check(case: &PCase, out: &mut CaseOut) {
     } else if r0.map_or(true, |t| t > TIMEOUT) {
         end = Some("timeout");
     } else {
-        for (i, r) in case.responses.iter().enumerate() {
+        for (i, r) in flat.iter().enumerate() {
             if let Some(f) = first_2xx {
-                let fa = case.responses[f].t_ms;
+                let fa = flat[f].t_ms;
                 need[i] = if r.t_ms < fa + TIMEOUT {
                     if (200..300).contains(&r.code) { Need::Must } else { Need::May }
                 } else {
@@ -1233,7 +1468,7 @@ fn pacing_check(case: &PCase, out: &mut CaseOut) {
             Res::Resp(code, marker) => {
                 // which arrival is it
                 let idx = marker.strip_prefix('m').and_then(|x| x.parse::<usize>().ok());
-                let Some(idx) = idx.filter(|i| *i < n && case.responses[*i].code == *code) else {
+                let Some(idx) = idx.filter(|i| *i < n && flat[*i].code == *code) else {
                     bad = Some(("unknown-response".into(), format!("receive() yielded {res:?} which was never sent")));
                     break;
                 };
@@ -1242,14 +1477,14 @@ fn pacing_check(case: &PCase, out: &mut CaseOut) {
                     break;
                 }
                 if let Some(k) = (ai..idx).find(|k| need[*k] == Need::Must) {
-                    bad = Some(("response-lost".into(), format!("response m{k} (arrived at {} ms) was never handed to the caller; next result is m{idx} at {t} ms", case.responses[k].t_ms)));
+                    bad = Some(("response-lost".into(), format!("response m{k} (arrived at {} ms) was never handed to the caller; next result is m{idx} at {t} ms", flat[k].t_ms)));
                     break;
                 }
                 if need[idx] == Need::Never && !truncated {
                     bad = Some(("response-after-end".into(), format!("response m{idx} handed out at {t} ms although the transaction had ended")));
                     break;
                 }
-                let arr = case.responses[idx].t_ms;
+                let arr = flat[idx].t_ms;
                 if *t < arr {
                     bad = Some(("harness-time".into(), format!("m{idx} yielded at {t} before its arrival {arr}")));
                     break;
@@ -1274,7 +1509,7 @@ fn pacing_check(case: &PCase, out: &mut CaseOut) {
     if bad.is_none() {
         // everything mandatory must have come out before the end
         if let Some(k) = (ai..n).find(|k| need[*k] == Need::Must) {
-            bad = Some(("response-lost".into(), format!("response m{k} (arrived at {} ms) was never handed to the caller; transaction ended with {ended:?}", case.responses[k].t_ms)));
+            bad = Some(("response-lost".into(), format!("response m{k} (arrived at {} ms) was never handed to the caller; transaction ended with {ended:?}", flat[k].t_ms)));
         } else if !truncated {
             match (end, &ended) {
                 (Some("timeout"), Some((t, Res::Err(m)))) if m.contains("timed out") => {
@@ -1287,7 +1522,7 @@ fn pacing_check(case: &PCase, out: &mut CaseOut) {
                 (Some("final"), e) => bad = Some(("after-final".into(), format!("unexpected {e:?} after the final response"))),
                 (Some("finished"), Some((t, Res::Finished))) => {
                     if let Some(f) = first_2xx {
-                        let fa = case.responses[f].t_ms;
+                        let fa = flat[f].t_ms;
                         let hi = taken_2xx_at.unwrap_or(fa) + TIMEOUT;
                         if *t < fa + TIMEOUT {
                             bad = Some(("completion-early".into(), format!("completion reported at {t} ms, first 2xx arrived at {fa} ms")));
@@ -1303,7 +1538,7 @@ fn pacing_check(case: &PCase, out: &mut CaseOut) {
         }
     }
     if let Some((locus, msg)) = bad {
-        out.fail(format!("c05.pacing/{kind}-{locus}"), format!("{msg}; results {:?}", obs.results));
+        out.fail(format!("c05.pacing/{kind}-{locus}"), format!("{msg}; results {}", brief(&obs.results)));
     }
     if case.send_delay > 0 || case.first_poll > 0 || case.thinks.iter().any(|t| *t > 0) {
         out.nontrivial(case);
@@ -1314,12 +1549,13 @@ pub fn property() -> Property {
     Property {
         fuzz: vec![],
         id: "C05",
-        rule: "cases = (INVITE|non-INVITE) x (reliable|unreliable) x Via sent-by (transport's own | TargetTransportInfo::via_host_port override from a pool of 6 shapes) x scripted response arrivals (time, status, top Via echoed verbatim | with ;received=, packet source = request destination | another address) under a paused clock; grid sub-check enumerates first-response instants that bracket every timer edge (schedule instant +-1 ms, 64*T1 +-1 ms) x status class x {own Via, 2 overrides}; random sub-check adds 0..4 further responses (duplicates, late finals) at offsets around T4 and 64*T1. pacing sub-checks: send stays pending 0/5/50/400 ms x first receive() at 0..29 s or only after 64*T1 (32.001..80 s) x think time after each result x the same response histories. Non-trivial = at least one retransmission observed, or a response within 1 ms of a timer edge, or two final responses (pacing: any delay configured); distinct by hash of the whole case.",
+        rule: "cases = (INVITE|non-INVITE) x (reliable|unreliable) x Via sent-by (transport's own | TargetTransportInfo::via_host_port override from a pool of 6 shapes) x scripted response arrivals (time, status, top Via echoed verbatim | with ;received=, packet source = request destination | another address) x transport handle the response is received with (the request's | a second transport's) x optional burst (1..129 further responses with status 100 | 180 | the response's own handed to the endpoint in one go right before one response of the history, no task runs in between) under a paused clock; grid sub-check enumerates first-response instants that bracket every timer edge (schedule instant +-1 ms, 64*T1 +-1 ms) x status class x {own Via, 2 overrides}, and every burst length x burst status 100/180 x closing response 180/200/404; random sub-check adds 0..4 further responses (duplicates, late finals) at offsets around T4 and 64*T1. pacing sub-checks: send stays pending 0/5/50/400 ms x first receive() at 0..29 s or only after 64*T1 (32.001..80 s) x think time after each result x the same response histories. Non-trivial = at least one retransmission observed, or a response within 1 ms of a timer edge, or two final responses, or a burst (pacing: any delay configured); distinct by hash of the whole case.",
         assumptions: vec![
             "timers run on tokio's paused clock (hook H2); sends on the mock transport complete instantly (grid/random) or after the configured delay (pacing)",
             "responses arriving exactly at a timer instant are excluded (tie is a don't-care); pacing: also a first receive() exactly on the deadline",
             "non-INVITE retransmission while in Proceeding and the Proceeding timeout are not asserted (statement is silent)",
             "a response belongs to the transaction by top-Via branch + CSeq method (RFC 3261 17.1.3): neither the Via sent-by text, added Via parameters nor the packet source change what is expected",
+            "every response of a burst counts like a response that arrived alone: all of them are handed out, in the order they were handed to the endpoint (the simulated scheduler runs the endpoint's per-message tasks first-in first-out), however many pile up between two receive() calls; the transport handle a response is received with does not change what is expected",
             "pacing: a first response arriving after 64*T1 but before the caller's first receive() leaves the results unasserted; a response that arrived before 64*T1 must be handed out however late the caller asks",
         ],
         explanation: "grid sub-checks are exhaustive over the stated finite grids; random / pacing sub-checks sample response tails, Via and delivery shapes, pacing parameters",
